@@ -845,6 +845,12 @@ def pos_allowed(data, o):
     return al
 
 
+# only U+000A starts a line: characters that are line breaks elsewhere (CR, VT, FF, NEL, LS, PS) and characters whose code
+# point or encoding contains the byte 0x0A / 0x0D when truncated (U+010A, U+040A, U+4E0A, U+0A0A, U+1000A, U+010D, U+0A00)
+LINE_LOOKALIKES = ['\r', '\x0b', '\x0c', '\u0085', '\u2028', '\u2029', '\u010a', '\u040a', '\u4e0a', '\u0a0a', '\U0001000a',
+                   '\u010d', '\u0a00', '\u0a0d']
+
+
 class C09(ScanProperty):
     ID = 'C09'
     THEOREMS = [('Properties.C09', ['C09_spec_unfold', 'C09_spec_line_start', 'C09_spec_line', 'C09_spec_line_of_boundary', 'C09_spec_column', 'C09_spec_after_break', 'C09_invariant_init', 'C09_invariant_step', 'C09_invariant_history', 'C09_history_total', 'C09_bookkeeping_step', 'C09_position_of_scanned_offset', 'C09_position_of_recorded_offset', 'C09_position_at_unrecorded_frontier', 'C09_position_cases', 'C09_match_positions', 'C09_next_pos_output', 'C09_exhausted_positions', 'C09_ex_starts', 'C09_ex_spec', 'C09_ex_run', 'C09_ex_history_scanned', 'C09_ex_frontier', 'C09_ex_applies', 'C09_ex_forward_reset'])]
@@ -925,12 +931,12 @@ class C09(ScanProperty):
     def gen_case(self, rng, i):
         if i % 3 == 1:
             return self.gen_rescan_case(rng)
-        alpha = rng.choice([('a', 'b', '\n'), ('a', '\n', 'é'), ('a', 'b', '\n'), ('\r', '\n', 'a')])
+        alpha = rng.choice([('a', 'b', '\n'), ('a', '\n', 'é'), ('a', 'b', '\n'), ('\r', '\n', 'a'), ('a', '\n', rng.choice(LINE_LOOKALIKES))])
         modes = [gen.gen_small_mode(rng, 'M0', alpha, rng.randint(1, 4), 0.15)]
         if rng.random() < 0.5:
             modes[0]['patterns'].append({'p': '\\n', 't': 55})
         n = rng.randint(0, 14)
-        inp = ''.join(rng.choice(alpha + ('\n',)) if rng.random() > 0.12 else rng.choice(['-', '€', '😀']) for _ in range(n))
+        inp = ''.join(rng.choice(alpha + ('\n',)) if rng.random() > 0.15 else rng.choice(['-', '€', '😀'] + LINE_LOOKALIKES) for _ in range(n))
         if rng.random() < 0.3:
             inp += '\n'
         bs = gen.boundaries(inp)
